@@ -579,35 +579,43 @@ func Run(c *core.Ctx, replay string) (*core.Result, error) {
 		"github.com/lib/pq is replaced by the stand-in of harness/internal/pqshim (array / NullTime / CopyIn wire forms)",
 		"rows are drawn inside what the SQL types hold: 32-bit integers in integer columns, quarter-valued floats in real columns, whole-second UTC times, enum columns carry declared constants",
 		"composite / array / JSON column types of another package must bring their own Valuer / Scanner (documented): such columns are not part of the model files",
+		"ON DELETE SET NULL on a plain int64 (NOT NULL) key is not a valid table struct: the outcome of a delete depends on PostgreSQL's trigger order; such columns are not part of the model files",
 	}
 	if err := pgmini.SelfTest(); err != nil {
 		return nil, core.Inconcl("%v", err)
 	}
 	// design level: the map model keeps integrity / uniqueness / atomicity under every operation sequence
-	ods := []string{`"CASCADE"`, `""`, `"SET NULL"`}
-	for k, od := range ods {
-		for _, ub := range []string{"FALSE", "TRUE"} {
-			nv, rows := "1", "2"
-			if c.Thorough() {
-				nv = "2"
+	type dcfg struct{ od, ub, nb string }
+	var cfgs []dcfg
+	if c.Thorough() {
+		for _, od := range []string{`"CASCADE"`, `""`, `"SET NULL"`} {
+			for _, ub := range []string{"FALSE", "TRUE"} {
+				for _, nb := range []string{"FALSE", "TRUE"} {
+					cfgs = append(cfgs, dcfg{od, ub, nb})
+				}
 			}
-			if !c.Thorough() && (k > 0 && ub == "TRUE") {
-				continue
-			}
-			cfg := fmt.Sprintf("SPECIFICATION Spec\nCONSTANTS\n  OD = %s\n  MaxRows = %s\n  UniqB = %s\n  NV = %s\nINVARIANTS IntegrityInv UniqueInv IdsInv\nPROPERTIES Atomic DeleteShrinks\n", od, rows, ub, nv)
-			t, err := c.RunTLC(core.TLCOpts{Module: "CrudModel", ConfigText: cfg, Workers: c.Workers, Timeout: 20 * time.Minute})
-			if err != nil {
-				return nil, err
-			}
-			if err := t.MustClean("CrudModel " + od); err != nil {
-				return nil, err
-			}
-			res.AddTLC(t)
 		}
+	} else {
+		cfgs = []dcfg{{`"CASCADE"`, "FALSE", "TRUE"}, {`"CASCADE"`, "TRUE", "FALSE"}, {`""`, "FALSE", "TRUE"}, {`"SET NULL"`, "FALSE", "TRUE"}, {`"SET NULL"`, "FALSE", "FALSE"}}
+	}
+	for _, k := range cfgs {
+		nv := "1"
+		if c.Thorough() {
+			nv = "2"
+		}
+		cfg := fmt.Sprintf("SPECIFICATION Spec\nCONSTANTS\n  OD = %s\n  MaxRows = 2\n  UniqB = %s\n  NV = %s\n  NullB = %s\nINVARIANTS IntegrityInv UniqueInv IdsInv\nPROPERTIES Atomic DeleteShrinks\n", k.od, k.ub, nv, k.nb)
+		t, err := c.RunTLC(core.TLCOpts{Module: "CrudModel", ConfigText: cfg, Workers: c.Workers, Timeout: 30 * time.Minute})
+		if err != nil {
+			return nil, err
+		}
+		if err := t.MustClean("CrudModel " + k.od); err != nil {
+			return nil, err
+		}
+		res.AddTLC(t)
 	}
 	// non-vacuity: a cascade emptying both tables and a refused delete are reachable
 	for _, w := range []struct{ inv, od string }{{"NoCascadeSeen", `"CASCADE"`}, {"NoRefusalSeen", `""`}} {
-		cfg := fmt.Sprintf("SPECIFICATION Spec\nCONSTANTS\n  OD = %s\n  MaxRows = 2\n  UniqB = FALSE\n  NV = 1\nINVARIANT %s\n", w.od, w.inv)
+		cfg := fmt.Sprintf("SPECIFICATION Spec\nCONSTANTS\n  OD = %s\n  MaxRows = 2\n  UniqB = FALSE\n  NV = 1\n  NullB = FALSE\nINVARIANT %s\n", w.od, w.inv)
 		t, err := c.RunTLC(core.TLCOpts{Module: "CrudModel", ConfigText: cfg, Workers: 1, Timeout: 10 * time.Minute})
 		if err != nil {
 			return nil, err
@@ -759,7 +767,7 @@ func tlaMeta(meta []zcrud.TableMeta) []any {
 		for _, c := range t.Cols {
 			cols = append(cols, c.Field)
 			if c.FK != "" {
-				fks = append(fks, map[string]any{"field": c.Field, "ref": c.FK, "ondelete": c.OnDelete})
+				fks = append(fks, map[string]any{"field": c.Field, "ref": c.FK, "ondelete": c.OnDelete, "nullable": c.Nullable})
 			}
 		}
 		uniques := []any{}
